@@ -702,17 +702,26 @@ Definition tick (fuel : nat) (w : world) : hres :=
   end.
 
 (* ------------------------------------------------------------------ main loop *)
-Inductive phase := PStartup (iter : nat) | PIdleEnter | PIdle | PRingEnter | PRing | PRingExit.
+(* [PStartup k lt]: wait_loaded has polled k times; lt = server_main's --look-to-time, acted on as soon as the
+   tower is loaded (main.py: `tower.wait_loaded(); if args.look_to_time is not None: bot.look_to_has_been_called(...)`) *)
+Inductive phase := PStartup (iter : nat) (lt : option Q) | PIdleEnter | PIdle | PRingEnter | PRing | PRingExit.
 
 Definition INACTIVITY : Q := 300%Q.
 Definition SLEEP_01 : Q := (3602879701896397 # 36028797018963968)%Q.   (* the double 0.1 *)
 
 Definition main_step (fuel : nat) (w : world) (p : phase) : world * phase * outcome :=
   match p with
-  | PStartup k =>
+  | PStartup k lt =>
       match tw_bells (w_tower w) with
-      | _ :: _ => (w, PIdleEnter, Running)
-      | [] => if k <? 20 then (sleep fuel w SLEEP_01, PStartup (S k), Running)
+      | _ :: _ =>
+          match lt with
+          | None => (w, PIdleEnter, Running)
+          | Some t => match look_to_has_been_called (sleep_until fuel) w t with
+                      | (w', None) => (w', PIdleEnter, Running)
+                      | (w', Some e) => (w', p, Crashed e (w_now w'))
+                      end
+          end
+      | [] => if k <? 20 then (sleep fuel w SLEEP_01, PStartup (S k) lt, Running)
               else (w, p, Crashed EOther (w_now w))
       end
   | PIdleEnter => (upd_bot w (fun b => b <| b_last_activity := w_now w |>), PIdle, Running)
@@ -783,4 +792,4 @@ Definition world0 (c : config) : world :=
 
 Definition run (fuel : nat) (c : config) : world * outcome :=
   let w := log (log (world0 c) OJoin) ORequestState in
-  main_loop fuel w (PStartup 0).
+  main_loop fuel w (PStartup 0 (c_look_to_time c)).
